@@ -617,7 +617,11 @@ def evaluate(c, cl, ml):
             return None, "the data message of the case could not be encoded with the original tables: %s" % d.get("MSG", "")[:100], None
         if not d.get("DO", "").startswith("rc=0") or " inv=1" in d["DO"][:40]:
             return None, "the data message does not decode with the original tables: %s" % d.get("DO", "")[:100], None
-        if d.get("DX") != d.get("DO"):
+        if "FXBAD=" in d.get("MSG", ""):
+            fb = d["MSG"].split("FXBAD=")[1].split()[0]
+            fail = ("after merging the extracted tables into master tables that had looked the descriptors up before, a lookup of %s answers with width/scale/reference %s "
+                    "instead of the definition the update carried" % (fb.split(":")[0], fb.split(":")[1]))
+        elif d.get("DX") != d.get("DO"):
             what = "a message decoded with master + extracted tables differs from its decoding with the original tables: %s" % listing_diff(d.get("DO", ""), d.get("DX", ""))
             if dirty and d.get("DN") == d.get("DO"):
                 finding = what + " (the extracted entries carry indeterminate af_nbits/ref_nbits)"
